@@ -61,6 +61,9 @@ def run(chk):
     x86order.gpb_compare(chk, emit, UNIT)
     x86order.field_compare(chk, emit, UNIT)
     x86order.nodisp_not_bp(chk, emit, UNIT)
+    x86order.index_scale_seen(chk, emit, UNIT)
+    from lib import ubsigned
+    ubsigned.run(chk, [emit], floor=3)
     fd = chk.facts(DBUNIT, tables=r"asmjit::x86::InstDB::(_inst_info_table|main_opcode_table|alt_opcode_table)$", enums=r"asmjit::x86::Inst::Id$|asmjit::x86::Opcode::Bits$")
     OB = {n: v for n, v in fd["enums"]["asmjit::x86::Opcode::Bits"]["enumerators"]}
     rows = fd["tables"]["asmjit::x86::InstDB::_inst_info_table"]["value"]
